@@ -16,6 +16,7 @@ var verifHarnesses = map[string]func(){
 	"VerifC13Quoting":     VerifC13Quoting,
 	"VerifC13CharLit":     VerifC13CharLit,
 	"VerifC13CharLitWide": VerifC13CharLitWide,
+	"VerifC13Trailing":    VerifC13Trailing,
 }
 
 // verifIsLayout recognises (white space | // ... newline | /* ... */)* over s completely.
@@ -62,7 +63,41 @@ func verifIsLayout(s []byte) bool {
 			}
 		}
 	}
+	if verifLayoutAtEOF {
+		// at the end of the file a line comment needs no newline
+		return ok && (st == plain || st == line)
+	}
 	return ok && st == plain
+}
+
+var verifLayoutAtEOF bool
+
+// VerifC13Trailing: layout after the last token, up to the end of the file (a final line
+// comment may lack its newline), is invisible: t1 ++ layout scans like t1.
+func VerifC13Trailing() {
+	n1, nl := verifParam("T1", 1), verifParam("L", 2)
+	k := verifParam("K", 3)
+	t1, lay := make([]byte, n1), make([]byte, nl)
+	for i := 0; i < n1; i++ {
+		t1[i] = verifNondetByte("t1")
+	}
+	for i := 0; i < nl; i++ {
+		lay[i] = verifNondetByte("lay")
+	}
+	verifAssume(verifASCII(t1) && verifASCII(lay))
+	verifLayoutAtEOF = true
+	okLay := verifIsLayout(lay)
+	verifLayoutAtEOF = false
+	verifAssume(okLay)
+	for i := 0; i < n1; i++ {
+		c := t1[i]
+		verifAssume(c != '"' && c != '\'' && c != '`' && c != '/' && c != '<' && c != '\\')
+	}
+	a := make([]byte, 0, n1+nl)
+	a = append(append(a, t1...), lay...)
+	ta, tb := verifScanAll(a, k), verifScanAll(t1, k)
+	verifAssert(verifSameToks(ta, tb), "layout at the end of the file does not change the token sequence")
+	verifCover("end")
 }
 
 func verifASCII(b []byte) bool {
